@@ -153,6 +153,11 @@ def torsion_cancel_scenarios(rng):
     return out
 
 
+def enc_g2_sum(sigs):
+    """the honest aggregate computed WITHOUT the library's Aggregate (textbook affine sum of the decoded signatures)"""
+    return agg_sum(sigs)
+
+
 def aggregate_pred(sigs, perm, split):
     from py_ecc.bls import G2Basic as C
     agg = C.Aggregate(sigs)
@@ -268,6 +273,17 @@ def predicates(rng, tier, only=None):
         ps.append(Pred("fast-aggregate-verify", fast_pred, (tag, p, mm, a, want)))
     for tag, p, mm, a, want in torsion_cancel_scenarios(rng):
         ps.append(Pred("fast-aggregate-verify", fast_pred, (tag, p, mm, a, want)))
+    # signers whose keys differ by a cube root of unity mod r: their signatures on one message are S and lam*S = (beta*x, y) — two
+    # DIFFERENT points with the SAME y (and, with -lam, the same x-cube and opposite y): the sum is neither a doubling nor infinity
+    lam = O.cube_root_of_unity(O.BLS_R)
+    a = rng.randrange(1, O.BLS_R)
+    for tag, ks in (("eigen-keys", [a, a * lam % O.BLS_R]), ("eigen-keys-3", [a, a * lam % O.BLS_R, a * lam * lam % O.BLS_R, 5]),
+                    ("eigen-keys-neg", [a, O.BLS_R - a * lam % O.BLS_R])):
+        sg = [POP.Sign(k, m) for k in ks]
+        ps.append(Pred("aggregate-sum", aggregate_pred, (sg, list(reversed(range(len(ks)))), 1)))
+        ag = enc_g2_sum(sg)
+        ps.append(Pred("fast-aggregate-verify", fast_pred, (tag, [pk_of(k) for k in ks], m, ag, True)))
+        ps.append(Pred("aggregate-verify", aggverify_pred, ("pop", tag, [pk_of(k) for k in ks], [m] * len(ks), ag, True)))
     if only:
         ps = [p for p in ps if p.name == only]
     return ps
